@@ -100,7 +100,7 @@ def _job(job):
         big = max(res["tlines"], key=lambda t: t[1])
         part["extra"]["largest scene in job %s/%d" % (mname, ids[0])] = "%d geoms (%s)" % (big[1], big[4])
         del part["extra"]["G[%s] max" % mname]
-    xml = dict(models.models()).get(mname.split("@")[0], "")
+    xml = dict(_all_models(True)).get(mname.split("@")[0], "")
     for cls in ("overflow", "fits"):
         if cls in res["first"] and len(part["samples"]) < 2:
             os_, name, mg = _locate(res["tlines"], res["first"][cls])
@@ -166,18 +166,25 @@ def _compile(xml, path):
     m.free()
 
 
+def _all_models(thorough):
+    return models.models() + (models.thorough_models() if thorough else [])
+
+
 def _plan(ctx, tmp):
     """[(model name, path, mode, nstep)]"""
     plan = []
-    for i, (name, xml) in enumerate(models.models()):
+    for i, (name, xml) in enumerate(_all_models(ctx.thorough)):
         p = os.path.join(tmp, "m%02d.mjb" % i)
         _compile(xml, p)
         mode = "masks" if name == "groups" else ("fullT" if ctx.thorough else "full")
-        nstep = 60 if name == "kitchen-sink" else 0
-        plan.append((name, p, mode, nstep))
-        if name == "kitchen-sink" and ctx.thorough:
-            plan.append((name + "@t=0", p, mode, 1))
-            plan.append((name + "@t=0.5", p, mode, 250))
+        if name == "kitchen-sink":
+            plan.append((name, p, mode, 60))
+            if ctx.thorough:
+                plan.append((name + "@t=0", p, mode, 1))
+        elif name == "kitchen-sink-notouch":
+            plan.append((name + "@t=0.5", p, mode, 250))      # flexes have reached the floor: flex contacts
+        else:
+            plan.append((name, p, mode, 0))
     return plan
 
 
@@ -212,14 +219,15 @@ def run(ctx):
     ctx.extra["option_sets_total"] = total_sets
     ctx.extra["driver_processes"] = len(jobs)
     ctx.rule = (
-        "%d models (kitchen-sink after 60 steps%s; geom-group/material/alpha model; kinematic trees from the shared alphabet) x "
+        "%d scenarios (kitchen-sink after 60 steps%s; geom-group/material/alpha model; kinematic trees from the shared alphabet) x "
         "option sets {only geoms: flags none / Static / +Texture / +Transparent / +ConvexHull, all groups, category masks, "
         "selected body; each of the %d mjVIS flags alone and with Static; default; all flags; all flags with all / no groups; "
         "selected + perturbed (translate|rotate) body; 7 frame modes x {default, all flags}; 16 label modes x {default, all "
         "flags}; category masks 0..6; bvh_depth 0,2,3,4 / flex_layer; groups model: all 64 geom-group masks} x EVERY "
         "maxgeom in 0..G+2 x two consecutive mjv_updateScene calls on a fresh exact-size scene.  A point is one (model, "
         "option set, maxgeom); non-trivial = the ample scene needs more than maxgeom (the scene is full at some call site)."
-        % (len(plan), " (+ after 1 and 250 steps)" if ctx.thorough else "", 31))
+        % (len(plan), " (+ after 1 step; + without the touch_grid sensor after 250 steps, with flex contacts; all frame / label "
+                      "modes also with all flags)" if ctx.thorough else "", 31))
     ctx.assumptions = [
         "status is sticky ('0: ok, 1: geoms exhausted, warning issued'): after call k it is compared with 'call 1..k needed "
         "more than maxgeom'; exactly one warning is expected at the transition",
